@@ -42,13 +42,30 @@ const PROTOCOL_PROGRAMS: &[(&str, &str)] = &[
 
 struct Case {
     id: String,
-    body: &'static str,
+    body: String,
 }
 
 fn cases() -> Vec<Case> {
-    let mut v: Vec<Case> = PROTOCOL_PROGRAMS.iter().map(|(n, b)| Case { id: format!("proto.{}", n), body: b }).collect();
-    v.extend(asynchost::CONCURRENT_ATOMS.iter().map(|(n, b)| Case { id: format!("concurrent.{}", n), body: b }));
-    v.extend(asynchost::AWAIT_ATOMS.iter().map(|(n, b)| Case { id: format!("await.{}", n), body: b }));
+    let mut v: Vec<Case> = PROTOCOL_PROGRAMS.iter().map(|(n, b)| Case { id: format!("proto.{}", n), body: b.to_string() }).collect();
+    v.extend(asynchost::CONCURRENT_ATOMS.iter().map(|(n, b)| Case { id: format!("concurrent.{}", n), body: b.to_string() }));
+    v.extend(asynchost::AWAIT_ATOMS.iter().map(|(n, b)| Case { id: format!("await.{}", n), body: b.to_string() }));
+    v
+}
+
+/// composed corpus programs whose numeric literals are read from the host (C07's generated
+/// family): dozens of orders per run, issued from loops, switch arms, finally blocks,
+/// destructuring defaults and constructor arguments
+fn composed(ctx: &Ctx) -> Vec<Case> {
+    use super::c07;
+    let (shards, per): (Vec<u64>, u64) = if ctx.thorough() { ((0..c07::COMPOSED_SHARDS).collect(), 40) } else { (vec![ctx.seed % c07::COMPOSED_SHARDS], 24) };
+    let mut v = Vec::new();
+    for sh in shards {
+        for i in 0..per {
+            if let Some(c) = c07::composed_case(sh, i, i % 2) {
+                v.push(Case { id: c.id, body: c.body });
+            }
+        }
+    }
     v
 }
 
@@ -91,7 +108,7 @@ fn judge(r: &mut UnitResult, cs: &[Case], thorough: bool) {
     let exit = isolate::run(&lim, || {
         for (ci, c) in cs.iter().enumerate() {
             let full = c.id.starts_with("proto.");
-            let src = asynchost::program(c.body, true);
+            let src = asynchost::program(&c.body, true);
             for (pn, p) in policies(full, thorough) {
                 let run = asynchost::run(&src, &p);
                 let probs: Vec<String> = run.problems.iter().map(|(a, b)| format!("{}\u{5}{}", a, b)).collect();
@@ -154,20 +171,35 @@ fn judge(r: &mut UnitResult, cs: &[Case], thorough: bool) {
     }
 }
 
+const COMPOSED_PER_UNIT: usize = 12;
+
 impl Check for C08 {
-    fn units(&self, _ctx: &Ctx) -> usize {
-        cases().len().div_ceil(PER_UNIT)
+    fn units(&self, ctx: &Ctx) -> usize {
+        cases().len().div_ceil(PER_UNIT) + composed(ctx).len().div_ceil(COMPOSED_PER_UNIT)
     }
 
     fn run_unit(&self, ctx: &Ctx, idx: usize) -> UnitResult {
         let mut r = UnitResult::default();
         let all = cases();
+        let na = all.len().div_ceil(PER_UNIT);
+        if idx >= na {
+            let comp = composed(ctx);
+            let lo = (idx - na) * COMPOSED_PER_UNIT;
+            let hi = (lo + COMPOSED_PER_UNIT).min(comp.len());
+            judge(&mut r, &comp[lo..hi], false);
+            r.stat("composed_programs", (hi - lo) as i64);
+            if let Some(c) = comp.get(lo) {
+                let run = asynchost::run(&asynchost::program(&c.body, true), &Policy { deferred_default: true, ..Policy::default() });
+                r.sample(json!({"program": c.id, "policy": "deferred", "orders_issued": run.orders_issued, "suspensions": run.suspensions, "boundary_history_head": run.history.iter().take(6).collect::<Vec<_>>()}));
+            }
+            return r;
+        }
         let lo = idx * PER_UNIT;
         let hi = (lo + PER_UNIT).min(all.len());
         judge(&mut r, &all[lo..hi], ctx.thorough());
         if let Some(c) = all.get(lo) {
             let p = policies(true, false);
-            let run = asynchost::run(&asynchost::program(c.body, true), &p[p.len() / 2].1);
+            let run = asynchost::run(&asynchost::program(&c.body, true), &p[p.len() / 2].1);
             r.sample(json!({"program": c.id, "policy": p[p.len() / 2].0, "boundary_history": run.history, "outcome": run.outcome}));
         }
         r
@@ -176,7 +208,13 @@ impl Check for C08 {
     fn replay(&self, _ctx: &Ctx, case: &Value) -> UnitResult {
         let mut r = UnitResult::default();
         let id = case["id"].as_str().unwrap_or("");
-        let cs: Vec<Case> = cases().into_iter().filter(|c| c.id == id).collect();
+        let cs: Vec<Case> = if let Some(rest) = id.strip_prefix("composed.") {
+            let (sh, rest) = rest.split_once('/').unwrap_or(("0", "0#0"));
+            let (ix, var) = rest.split_once('#').unwrap_or(("0", "0"));
+            super::c07::composed_case(sh.parse().unwrap_or(0), ix.parse().unwrap_or(0), var.parse().unwrap_or(0)).map(|c| Case { id: c.id, body: c.body }).into_iter().collect()
+        } else {
+            cases().into_iter().filter(|c| c.id == id).collect()
+        };
         judge(&mut r, &cs, true);
         r
     }
